@@ -28,6 +28,7 @@ runs the real screen's schedule points against (`lean/Driver/Pipe.lean`).
                                            between two expiries is irrelevant, only the positions of the expiries matter
       - `pipeline_exactly_once_expire`, `db_pipeline_exactly_once_expire`   UNCONDITIONAL exactly-once (expiry steps allowed)
       - `flush_no_expire`, `expire_needs_buffered`, `expire_harmless_when_drained`   how / when an expiry can matter at all
+  * `resize_at_full_queue`, `resize_with_room`, `post_at_boundary`   the boundary situations of engine `pipe` (kinds 5, 6) in the model
   * `text_through_pipeline`, `db_text_through_pipeline`   with `C11.stream_delivery`: typed / pasted text, paste markers and
     focus reports injected into the tty in arbitrary chunks come out of PollEvent / ChannelEvents as exactly one event per
     item, in order, once everything is drained
@@ -586,6 +587,46 @@ theorem db_text_through_pipeline : ∀ p ∈ Gen.dbTables, ∀ (w h : Int) (x11 
     text_through_pipeline _ (db_stable_at p hp w h x11)
       ((List.all_eq_true.mp C11.db_keys_ascii) p hp) c pst0 hesc items
       (fun i hi => dbItemOk p hp w h x11 i (hok i hi)) ls s hcons hno hinj hr hl hd
+
+/-! ### the boundary situations the engine `pipe` drives the real screen into (kinds 5 and 6) -/
+
+/-- **resize at an exactly full queue.**  `resize()` posts its EventResize without blocking (tscreen.go:1250): with the event
+queue full the only enabled resize step is `resizeDrop`, and it leaves the WHOLE state unchanged — in particular every queued,
+pending and delivered event (the resize event itself is what is dropped, never an input event); with room the only enabled
+one is `resizeSent`, which appends exactly one `.resize` item and nothing else. -/
+theorem resize_at_full_queue (P : Parser Ev PSt) (c : PCfg) (s : State Ev PSt) (hf : full c.eqCap s.eventQ = true) :
+    step P c s .resizeDrop = some s ∧ step P c s .resizeSent = none := by
+  simp [step, Model.Pipeline.guard, hf]
+
+theorem resize_with_room (P : Parser Ev PSt) (c : PCfg) (s : State Ev PSt) (hf : full c.eqCap s.eventQ = false) :
+    step P c s .resizeDrop = none ∧
+    step P c s .resizeSent = some { s with eventQ := s.eventQ ++ [.resize], log := s.log ++ [.resize] } := by
+  simp [step, Model.Pipeline.guard, hf, push]
+
+/-- **PostEvent at capacity − 1, then at capacity** (two posts in a row, from whichever goroutines): the first returns nil and
+its event is the last one the queue takes, the second returns ErrEventQFull and changes nothing but the caller's own
+sequence counter — whatever else the state holds. -/
+theorem post_at_boundary (P : Parser Ev PSt) (c : PCfg) (s : State Ev PSt) (h1 : s.eventQ.length + 1 = c.eqCap) :
+    ∃ s1 s2, step P c s .post = some s1 ∧ step P c s1 .post = some s2 ∧
+      postOk c s = true ∧ postOk c s1 = false ∧
+      s1.eventQ = s.eventQ ++ [.posted s.nextSeq] ∧ s2.eventQ = s1.eventQ ∧ s2.log = s1.log ∧
+      s1.log = s.log ++ [.posted s.nextSeq] ∧ full c.eqCap s2.eventQ = true := by
+  have hnf : full c.eqCap s.eventQ = false := by simp [full]; omega
+  have hf1 : full c.eqCap (s.eventQ ++ [Item.posted s.nextSeq]) = true := by simp [full]; omega
+  refine ⟨{ push s (.posted s.nextSeq) with nextSeq := s.nextSeq + 1 },
+    { push s (.posted s.nextSeq) with nextSeq := s.nextSeq + 1 + 1 }, ?_, ?_, ?_, ?_, ?_, ?_, ?_, ?_, ?_⟩
+  · simp [step, hnf]
+  · simp [step, push, hf1]
+  · simp [postOk, hnf]
+  · simp [postOk, push, hf1]
+  · simp [push]
+  · simp [push]
+  · simp [push]
+  · simp [push]
+  · simp [push, hf1]
+
+example : ∃ s : State Nat Unit, s.eventQ.length + 1 = (⟨3, 1, 1, false⟩ : PCfg).eqCap :=
+  ⟨{ pst := (), eventQ := [.resize, .resize] }, rfl⟩
 
 /-! ### the hypotheses are satisfiable; the timer condition cannot be dropped -/
 
